@@ -445,13 +445,16 @@ def _main(prop, tier, seed, scen_name, scratch, t0, only):
         # prefer counterexamples whose model can be built in the requested input kinds
         good = [x for x in lst if not (x[2].get('model') or {}).get('_unrepresentable')]
         pool = good or lst
+        # models chosen under the stubs' hints (values for which the stub's chosen outcome is the real one) first
+        pool = [x for x in pool if (x[2].get('model') or {}).get('_hinted')] + \
+               [x for x in pool if not (x[2].get('model') or {}).get('_hinted')]
         # up to 8 candidates spread over the occurrences (different jobs / flavours / paths): the key counts as
         # reproduced if any of them replays
         if len(pool) <= 8:
             picks = list(pool)
         else:
             step = (len(pool) - 1) / 7.0
-            picks = [pool[int(round(i * step))] for i in range(8)]
+            picks = pool[:3] + [pool[int(round(i * step))] for i in range(1, 8)]
         for (ji, rec, ob) in picks:
             tid = 'replay:%d' % len(tasks)
             tasks.append({'id': tid, 'scen': scen_name, 'fn': jobs[ji]['fn'],
